@@ -52,7 +52,8 @@ def scenario_for(cfg):
                 opts = POOL[c] + [None, UNSEEN[c]]
                 test[(i, c)] = opts[choose(f"te_{i}_{c}", len(opts))]
         Xtr = _frame(train, ntr, index=[f"r{i}" for i in range(ntr)])
-        Xte = _frame(test, nte, index=[f"t{i * 2 + 5}" for i in range(nte)])
+        # row labels of the table to transform: distinct, or repeated (chunks concatenated without ignore_index)
+        Xte = _frame(test, nte, index=["t5"] * nte if cfg.get("dup_index") else [f"t{i * 2 + 5}" for i in range(nte)])
         Xte0 = Xte.copy()
         est = m.CategoriesToIntegers(columns=list(COLS), remove=remove, skip_errors=skip, single=single)
         r = est.fit(Xtr)
@@ -117,10 +118,12 @@ def configs(tier):
                 if tier == "quick":
                     if remove == ["size=3"] or (single and remove):
                         continue
-                    out.append(dict(train_rows=2, test_rows=2, train_missing=False, single=single, skip_errors=skip, remove=remove))
+                    out.append(dict(train_rows=2, test_rows=2, train_missing=False, single=single, skip_errors=skip, remove=remove, dup_index=(skip and remove is None)))
                 else:
                     out.append(dict(train_rows=2, test_rows=2, train_missing=True, single=single, skip_errors=skip, remove=remove))
                     out.append(dict(train_rows=3, test_rows=1, train_missing=True, single=single, skip_errors=skip, remove=remove))
+                    if remove is None:
+                        out.append(dict(train_rows=2, test_rows=2, train_missing=False, single=single, skip_errors=skip, remove=remove, dup_index=True))
     # spread over the cores: the first training row is enumerated here (programs), the rest by the engine
     full = []
     for c in out:
